@@ -279,6 +279,11 @@ class Discharger:
         if idx[0] == "agg" and idx[1].endswith("ops::Range"):
             d = dict(idx[3])
             return self.d_slice_range(gs, base, d.get("start"), d.get("end"))
+        # c[p] under n == k >= 1 with n = min(_, len(c) saturating- p)
+        for g in gs:
+            if g[0] == "bool" and g[2] is True and g[1][0] == "bin" and g[1][1] == "Eq" and g[1][3][0] == "int" and g[1][3][1] >= 1:
+                if self.window_ok(gs, g[1][2], base, idx):
+                    return ("D5w", "c[p] under min(_, len(c) saturating- p) == k >= 1")
         # layers[0] style
         if idx == ("int", 0):
             r = self.d_nonempty_vec_field(base)
@@ -334,42 +339,92 @@ class Discharger:
                     return True
         return False
 
-    def window_bound(self, n, c, p):
-        """n == min(_, saturating_sub(len(c), p)) : then p + n <= len(c) whenever p <= len(c), and n == 0 otherwise"""
+    def length_of(self, L):
+        """the collection term c if L is (a helper returning) len(c), else None"""
+        L = norm(L)
+        if L[0] == "call" and L[1] in ("Vec::len", "slice::len", "str::len", "String::len") and L[2]:
+            return L[2][0]
+        if L[0] == "call" and L[3] is not None:
+            for st in self._inline_cases(L):
+                if st is None:
+                    return None
+                c = self.length_of(st) if st[0] == "call" and st[3] is None else None
+                if c is not None:
+                    return c
+        return None
+
+    def _inline_cases(self, callt):
+        """normalised return terms of an in-crate helper call (arguments substituted); [None] if unknown"""
+        sb = self.facts.body(callt[3][0]) if callt[3] else None
+        if sb is None:
+            return [None]
+        t = sb.blocks[callt[3][1]].term
+        body = self.facts.body(t.resolved() or "") or self.facts.body(t.callee() or "")
+        if body is None:
+            return [None]
+        tr = get_tracer(self.facts, sb)
+        actuals = tuple(tr.operand(a) for a in t.args)
+        cases = self.inter.ret_cases(body)
+        ids = self.inter.callee_ids(body)
+        if len(cases) != 1:
+            return [None]
+        return [norm(self.inter.subst(cases[0][0], ids, actuals))]
+
+    def remainder_of(self, t):
+        """(c, p) if t == len(c) saturating- p (directly or through a one-line helper)"""
+        t = norm(t)
+        if t[0] == "call" and t[1] in ("u64::saturating_sub", "usize::saturating_sub") and len(t[2]) == 2:
+            c = self.length_of(t[2][0])
+            if c is not None:
+                return c, norm(t[2][1])
+        if t[0] == "call" and t[3] is not None:
+            for st in self._inline_cases(t):
+                if st is not None and st[0] == "call" and st[3] is None:
+                    return self.remainder_of(st)
+        return None
+
+    def window_of(self, n):
+        """(c, p, rem_term) if n == min(_, len(c) saturating- p)"""
+        n = norm(n)
         if n[0] == "call" and n[1] in ("cmp::min", "Ord::min", "usize::min", "u64::min") and len(n[2]) == 2:
             for a in n[2]:
-                a = norm(a)
-                if a[0] == "call" and a[1] in ("u64::saturating_sub", "usize::saturating_sub") and len(a[2]) == 2:
-                    l, q = a[2]
-                    if l[0] == "call" and l[1] in ("Vec::len", "slice::len") and l[2] and l[2][0] == c and q == p:
+                r = self.remainder_of(a)
+                if r is not None:
+                    return r[0], r[1], norm(a)
+        return None
+
+    def nonzero(self, gs, t):
+        t = norm(t)
+        for g in gs:
+            if g[0] == "bool" and g[1][0] == "bin" and g[1][1] in ("Eq", "Ne"):
+                a, b = g[1][2], g[1][3]
+                if a == t and b[0] == "int":
+                    if g[1][1] == "Eq" and b[1] == 0 and g[2] is False:
                         return True
-                # helper returning the saturating remainder (e.g. ReadableFile::len): inline one level
-                if a[0] == "call" and isinstance(a[1], str) and a[3] is not None:
-                    body = None
-                    sb = self.facts.body(a[3][0]) if a[3] else None
-                    if sb is not None:
-                        r = sb.blocks[a[3][1]].term.resolved() or sb.blocks[a[3][1]].term.callee()
-                        body = self.facts.body(r)
-                    if body is not None:
-                        cases = self.inter.ret_cases(body)
-                        ids = self.inter.callee_ids(body)
-                        okc = 0
-                        for ct, _, _ in cases:
-                            st = norm(self.inter.subst(ct, ids, a[2]))
-                            if st[0] == "call" and st[1] in ("u64::saturating_sub", "usize::saturating_sub") and len(st[2]) == 2:
-                                l, q = st[2]
-                                if l[0] == "call" and l[1] in ("Vec::len", "slice::len") and l[2] and l[2][0] == c and q == p:
-                                    okc += 1
-                        if cases and okc == len(cases):
-                            return True
+                    if g[1][1] == "Eq" and b[1] >= 1 and g[2] is True:
+                        return True
+                    if g[1][1] == "Ne" and b[1] == 0 and g[2] is True:
+                        return True
+            if g[0] == "bool" and g[1][0] == "bin" and g[1][1] == "Gt" and g[1][2] == t and g[1][3] == ("int", 0) and g[2] is True:
+                return True
         return False
+
+    def window_ok(self, gs, n, c, p):
+        """n = min(_, len(c) saturating- p) and (n != 0 or the remainder != 0): then p < len(c) and p + n <= len(c)"""
+        w = self.window_of(n)
+        if w is None:
+            return False
+        wc, wp, rem = w
+        if wc != norm(c) or wp != norm(p):
+            return False
+        return self.nonzero(gs, n) or self.nonzero(gs, rem)
 
     def d_slice_range(self, gs, c, start, end):
         if start is None or end is None:
             return None
         ar = unchecked_arith(end)
-        if ar and ar[0] == "Add" and ar[1] == start and self.window_bound(ar[2], c, start):
-            return ("D5w", "c[p..p+n] with n = min(_, len(c) saturating- p)")
+        if ar and ar[0] == "Add" and ar[1] == start and self.window_ok(gs, ar[2], c, start):
+            return ("D5w", "c[p..p+n] with n = min(_, len(c) saturating- p) and n (or the remainder) != 0")
         return None
 
     def index_from_find(self, i, s, allow_plus):
@@ -580,29 +635,18 @@ class Discharger:
             if self.is_index_value(a) and self.is_index_value(b):
                 return ("D7", "sum of two in-bounds string indices of one string (<= 2*isize::MAX < usize::MAX)")
             # p + n with n = min(_, len(c) saturating- p)
-            cnd = self.window_content(body, a, b)
+            cnd = self.window_content(body, gs, a, b)
             if cnd:
                 return cnd
         return None
 
-    def window_content(self, body, p, n):
-        """p + n where n = min(_, saturating remainder of some slice at p)"""
-        # find any c such that window_bound(n, c, p)
-        for x in walk(n):
-            if x[0] == "call" and x[1] in ("Vec::len", "slice::len") and x[2]:
-                if self.window_bound(n, x[2][0], p):
-                    return ("D5w", "p + n with n = min(_, len(c) saturating- p)")
-        # helper form: the remainder helper takes self
-        nn = n
-        if nn[0] == "call" and nn[1] in ("cmp::min", "Ord::min", "usize::min", "u64::min"):
-            for a in nn[2]:
-                a = norm(a)
-                if a[0] == "call" and a[3] is not None and len(a[2]) == 1:
-                    owner = a[2][0]
-                    for fld in ("content",):
-                        c = norm(("field", owner, fld))
-                        if self.window_bound(n, c, p):
-                            return ("D5w", "p + n with n = min(_, remaining(self)) and remaining = len(content) saturating- position")
+    def window_content(self, body, gs, p, n):
+        """p + n where n = min(_, len(c) saturating- p), n or remainder != 0  =>  p + n <= len(c) <= isize::MAX"""
+        w = self.window_of(n)
+        if w is None:
+            return None
+        if w[1] == norm(p) and (self.nonzero(gs, n) or self.nonzero(gs, w[2])):
+            return ("D5w", "p + n with n = min(_, len(c) saturating- p) and n (or the remainder) != 0")
         return None
 
     def is_index_value(self, t):
